@@ -195,16 +195,18 @@ func Specs() map[string]*PropSpec {
 		Stubs:       []string{"sLedger (statedb.Keeper)"},
 	}
 	m["C02"] = &PropSpec{
-		ID: "C02", Pkgs: []string{"./x/evm/statedb", "./precompiles/staking"},
+		ID: "C02", Pkgs: []string{"./x/evm/statedb", "./precompiles/staking", "./precompiles/distribution"},
 		Quick: []Inst{sd("VerifC05_StateDB", "ops", "3", "kinds", "tdf"), sd("VerifC05_StateDB", "ops", "4", "kinds", "td", "amts", "1"),
-			{Pkg: "precompiles/staking", Fn: "VerifC02_StakingMirror", Params: pm(), EngineReplay: true}},
+			{Pkg: "precompiles/staking", Fn: "VerifC02_StakingMirror", Params: pm(), EngineReplay: true},
+			{Pkg: "precompiles/distribution", Fn: "VerifC02_DistributionMirror", Params: pm(), EngineReplay: true}},
 		Thorough: []Inst{sd("VerifC05_StateDB", "ops", "4", "kinds", "tdf", "amts", "1"), sd("VerifC05_StateDB", "ops", "4", "kinds", "td"),
-			{Pkg: "precompiles/staking", Fn: "VerifC02_StakingMirror", Params: pm(), EngineReplay: true}},
+			{Pkg: "precompiles/staking", Fn: "VerifC02_StakingMirror", Params: pm(), EngineReplay: true},
+			{Pkg: "precompiles/distribution", Fn: "VerifC02_DistributionMirror", Params: pm(), EngineReplay: true}},
 		Bounds: map[string]string{
-			"quick":    "every program of <= 3 operations from {value transfer, SELFDESTRUCT, nested frame} over 3 accounts, and every program of 4 operations from {transfer, SELFDESTRUCT}: after Commit total supply = sum of surviving balances, never above the initial supply, every balance = before + received - paid; staking precompile delegate through the real StateDB and the real method body: signer -> precompile and signer -> contract -> precompile, with / without attached value, delegator = signer or calling contract, contract-internal transfers before and after the call, all balances and amounts symbolic (< 2^100), final Commit, supply and every balance compared with reference bookkeeping",
+			"quick":    "every program of <= 3 operations from {value transfer, SELFDESTRUCT, nested frame} over 3 accounts, and every program of 4 operations from {transfer, SELFDESTRUCT}: after Commit total supply = sum of surviving balances, never above the initial supply, every balance = before + received - paid; staking precompile delegate through the real StateDB and the real method body: signer -> precompile and signer -> contract -> precompile, with / without attached value, delegator = signer or calling contract, contract-internal transfers before and after the call, all balances and amounts symbolic (< 2^100), final Commit, supply and every balance compared with reference bookkeeping; distribution precompile withdrawDelegatorRewards / claimRewards / withdrawValidatorCommission in the same topologies with the payout going to the named account or to a separate withdraw address",
 			"thorough": "4 operations with frames",
 		},
-		Outside:     []string{"distribution / ICS-20 / bank precompiles and staking createValidator (same mirroring structure as delegate; suspected overwrites listed in DESIGN.md, not decided here)", "the EVM interpreter itself (operations are issued directly against the StateDB)", "fees (C07)"},
+		Outside:     []string{"ICS-20 / bank precompiles and staking createValidator (same mirroring structure; not decided here)", "a withdrawal with nothing outstanding (the precompile indexes res.Amount[0] of an empty answer: the transaction panics and is rolled back)", "the EVM interpreter itself (operations are issued directly against the StateDB)", "fees (C07)"},
 		Assumptions: []string{"as C05", "precompile harness: SetAccount mints / burns the balance difference exactly like x/evm/keeper SetBalance; the staking module moves the delegated coins to the bonded pool in the same ledger; the account of the executing contract is cached before the precompile runs (the EVM fetched its code), the signer's only when it attached value"},
 		Stubs:       []string{"sLedger", "c02Bank", "c04Srv (staking message server)", "authz keeper overrides"},
 	}
